@@ -5,3 +5,5 @@ typedef struct { void *data; size_t size; size_t cap; } vec_vec_u8; /* opaque he
 typedef struct { gcry_mpi_t *data; size_t size; size_t cap; } vec_mpi;
 typedef struct { void *data; size_t size; size_t cap; } vec_str;
 typedef struct { vec_mpi *data; size_t size; size_t cap; } vec_vec_mpi;
+/* notation = pair of octet strings; embedded signatures / fingerprints = vectors of octet strings: sizes only */
+typedef struct { vec_u8 first; vec_u8 second; } pair_vec_u8_vec_u8;
